@@ -212,6 +212,13 @@ func registerRegexpIntrinsics(reg func(string, intrinsicFn)) {
 	reg("regexp.Compile", compile(false))
 	reg("regexp.MatchString", func(m *Machine, c *frame, fn *ssa.Function, a []Value) (Value, bool) {
 		pat := m.concretizeValue(argStr(a[0])).(Str)
+		if argStr(a[1]).Sym != nil {
+			if re, err := regexp.Compile(pat.S); err == nil {
+				if v, ok := m.symRegexpCall(re, "MatchString", fn, a[1:]); ok {
+					return Tuple{v, Iface{}}, true
+				}
+			}
+		}
 		s := m.concretizeValue(argStr(a[1])).(Str)
 		ok, err := regexp.MatchString(pat.S, s.S)
 		if err != nil {
@@ -227,6 +234,11 @@ func registerRegexpIntrinsics(reg func(string, intrinsicFn)) {
 				m.goPanicRuntime("nil *regexp.Regexp")
 			}
 			re := p.o.nat.(*regexp.Regexp)
+			if len(a) > 1 && !deepConcrete(a[1]) {
+				if v, ok := m.symRegexpCall(re, name, fn, a[1:]); ok {
+					return v, true
+				}
+			}
 			mv := reflect.ValueOf(re).MethodByName(name)
 			mt := mv.Type()
 			in := make([]reflect.Value, mt.NumIn())
